@@ -945,6 +945,119 @@ Section H.
     - discriminate.
   Qed.
 
+  (* ---------------- facts that need no invariant ---------------- *)
+  Lemma turn_search_greach fuel : forall s d p o o' s' d' p',
+    turn_search Sim fuel s d p o = SOk o' s' d' p' -> greach s s'.
+  Proof.
+    induction fuel as [|f IH]; intros s d p o o' s' d' p' H; [discriminate|]. simpl in H.
+    destruct (memb _ d); [apply (IH _ _ _ _ _ _ _ _ H)|].
+    destruct (add_report_spec Sim s (nth p order 0) o) as (_ & _ & _ & G & _).
+    destruct (add_report Sim s (nth p order 0) o) as [o1 s1]. cbn [fst snd] in *.
+    destruct (s_done s _); [destruct (all_in _)|].
+    - injection H as <- <- <- <-. exact G.
+    - eapply greach_trans; [exact G|apply (IH _ _ _ _ _ _ _ _ H)].
+    - injection H as <- <- <- <-. exact G.
+  Qed.
+
+  Lemma dyn_loop_greach l : forall s d o o' s' d',
+    dyn_loop Sim s d l o = (o', s', d') -> greach s s'.
+  Proof.
+    induction l as [|a l IH]; intros s d o o' s' d' H; simpl in H.
+    - injection H as <- <- <-. constructor.
+    - destruct (memb a d); [apply (IH _ _ _ _ _ _ H)|].
+      destruct (add_report_spec Sim s a o) as (_ & _ & _ & G & _).
+      destruct (add_report Sim s a o) as [o1 s1]. cbn [fst snd] in *.
+      destruct (s_done s a); [destruct (all_in _)|].
+      + injection H as <- <- <-. exact G.
+      + eapply greach_trans; [exact G|apply (IH _ _ _ _ _ _ H)].
+      + eapply greach_trans; [exact G|apply (IH _ _ _ _ _ _ H)].
+  Qed.
+
+  (* whatever the state: a call leaves the simulation alone, or resets it once, or steps it
+     once; after that only getters run *)
+  Lemma do_call_sim_reach k m c r m' : do_call Sim k m c = (r, m') ->
+    m_sim m' = m_sim m \/ greach (s_reset (m_sim m)) (m_sim m') \/
+    exists l, greach (s_step (m_sim m) l) (m_sim m').
+  Proof.
+    assert (Hturn : forall b acts, turn_step_gen Sim b m acts = (r, m') ->
+              m_sim m' = m_sim m \/ exists l, greach (s_step (m_sim m) l) (m_sim m')).
+    { intros b acts H. unfold turn_step_gen in H. destruct acts as [|[a0 v0] acts'].
+      - injection H as <- <-. left. reflexivity.
+      - destruct (if b then _ else _); [injection H as <- <-; left; reflexivity|].
+        destruct (s_all _).
+        + destruct (flush _ _ _ _ _) as [o s2] eqn:Ef.
+          destruct (flush_branch _ _ _ _ Ef) as (_ & _ & _ & G).
+          injection H as <- <-. right. eexists. exact G.
+        + destruct (turn_search _ _ _ _ _ _) as [o s2 d p|] eqn:Es; injection H as <- <-.
+          * right. eexists. apply (turn_search_greach _ _ _ _ _ _ _ _ _ Es).
+          * left. reflexivity. }
+    assert (Hreset : forall b : bool, (if b then turn_reset Sim m else turn_reset_prefix Sim m) = (r, m') ->
+              m_sim m' = m_sim m \/ greach (s_reset (m_sim m)) (m_sim m')).
+    { intros b H. unfold turn_reset, turn_reset_prefix in H. destruct order as [|a0 rest].
+      - destruct b; injection H as <- <-; left; reflexivity.
+      - destruct b.
+        + destruct (s_obs _ _) as [ob s2] eqn:E. injection H as <- <-. right.
+          eapply gr_obs. rewrite E. constructor.
+        + destruct (s_obs _ _) as [ob s2] eqn:E. injection H as <- <-. right.
+          eapply gr_obs. rewrite E. constructor. }
+    intros H. destruct k; destruct c as [|acts sh]; cbn in H.
+    - destruct (all_reset_reports_learning m) as (obs & m1 & E & _ & _ & _ & G). rewrite E in H.
+      injection H as <- <-. right. left. exact G.
+    - destruct (existsb (fun kv => memb (fst kv) (m_done m)) acts) eqn:E.
+      + rewrite (all_step_reject Sim m acts sh E) in H. injection H as <- <-. left. reflexivity.
+      + destruct (all_step_accept Sim m acts sh E) as (o1 & m1 & E1 & _ & _ & G & _).
+        rewrite E1 in H. injection H as <- <-. right. right. eexists. exact G.
+    - destruct (Hreset true H) as [A|A]; tauto.
+    - destruct (Hturn true acts H) as [A|A]; tauto.
+    - destruct (dyn_reset_reports_nominated m) as (obs & m1 & E & _ & _ & G). rewrite E in H.
+      injection H as <- <-. right. left. exact G.
+    - unfold dyn_step in H. destruct (existsb _ acts); [injection H as <- <-; left; reflexivity|].
+      destruct (s_all _).
+      + destruct (flush _ _ _ _ _) as [o s2] eqn:Ef.
+        destruct (flush_branch _ _ _ _ Ef) as (_ & _ & _ & G).
+        injection H as <- <-. right. right. eexists. exact G.
+      + destruct (dyn_loop _ _ _ _ _) as [[o s2] d] eqn:Ed. injection H as <- <-.
+        right. right. eexists. apply (dyn_loop_greach _ _ _ _ _ _ _ Ed).
+    - destruct (Hreset false H) as [A|A]; tauto.
+    - destruct (Hturn false acts H) as [A|A]; tauto.
+  Qed.
+
+  Lemma sb_keys_agents pool m s1 o m' :
+    step_branch pool m s1 o m' -> incl pool agents -> forall a, In a (keys o) -> In a agents.
+  Proof.
+    intros [? ? K ? ? ? ?|ks ? SP] Hin a Ha.
+    - rewrite K in Ha. apply live_In in Ha. tauto.
+    - rewrite (sb_keys_search _ _ _ _ _ _ _ SP) in Ha.
+      apply Hin, (sp_fresh _ _ _ _ _ _ _ _ _ SP), Ha.
+  Qed.
+
+  Lemma step_keys_agents k m acts sh o m' :
+    sim_ok k -> hinv k Live m -> do_call Sim k m (CStep acts sh) = (ROut o, m') ->
+    forall a, In a (keys o) -> In a agents.
+  Proof.
+    intros Hs Hi H. destruct k; cbn in H; [| | |destruct Hs].
+    - destruct (all_step_out _ _ _ _ _ H) as (_ & K & _). intros a Ha. rewrite K in Ha.
+      apply live_In in Ha. tauto.
+    - apply hinv_tinv in Hi. destruct (turn_step_out _ _ _ _ Hi H) as (_ & _ & SB & _).
+      apply (sb_keys_agents _ _ _ _ _ SB). intros a. apply order_In.
+    - destruct Hs as (Hn & Hnom). destruct (dyn_step_out _ _ _ _ (Hnom _) H) as (_ & SB & _).
+      apply (sb_keys_agents _ _ _ _ _ SB). apply Hnom.
+  Qed.
+
+  (* progress, for whichever manager *)
+  Lemma step_progress k m acts sh o m' :
+    sim_ok k -> stable_ok k -> hinv k Live m -> do_call Sim k m (CStep acts sh) = (ROut o, m') ->
+    o_all o = false ->
+    (k = MDyn -> exists a, In a (s_next (s_step (m_sim m) acts)) /\ ~ In a (m_done m) /\
+                           s_done (s_step (m_sim m) acts) a = false) ->
+    exists a, In (a, false) (o_done o) /\ ~ In a (m_done m').
+  Proof.
+    intros Hs Hst Hi H Ho Hd. destruct k; cbn in H; [| | |destruct Hs].
+    - apply (all_progress _ _ _ _ _ H Ho).
+    - apply (turn_progress _ _ _ _ Hst (hinv_tinv _ Hi) H Ho).
+    - destruct Hs as (Hn & Hnom). apply (dyn_progress _ _ _ _ Hst (Hnom _) H Ho (Hd eq_refl)).
+  Qed.
+
   (* executable mirrors of the hypotheses, for the non-vacuity examples *)
   Definition in_protocolb (t : list tentry) : bool :=
     forallb (fun e => match te_call e with
